@@ -9,6 +9,8 @@
 //        src -> indep -> indep sink
 //   MODE 2 (map_ with per-key error capture, map_node.cpp write_map_error): keysrc (keys 0,1) -> map_( (key, x): pre -> TK ) ->
 //        per-key dep sink; exception_time_series(map) -> per-key err sink;  src -> indep -> indep sink
+//   enumerated: whether all throws of a node carry the SAME message (a NodeError has no time stamp, so a repeated error is an
+//               equal value written again) or a message numbered by the evaluation
 //   symbolic  : source payloads, source cycle deltas, T's / S's self-scheduling deltas, the SET of evaluations in which
 //               T (and S) throw (one symbolic bool per evaluation - forks where it is consulted)
 //   oracle    : neither run lets an exception escape; the twin has no error tick; run 0's error stream is exactly the
@@ -55,6 +57,7 @@ enum StreamId : int { ST_IND = 0, ST_DEP, ST_ERR, ST_TEVAL, ST_THROWN, ST_DEP2, 
                       ST_KEVAL0, ST_KEVAL1, ST_KTHROWN0, ST_KTHROWN1, ST_KERR0, ST_KERR1, ST_KDEP0, ST_KDEP1, NSTREAM };
 Stream g_s[2][NSTREAM];
 int g_run = 0;
+bool g_same_msg = false;   // enumerated: every throw of a node carries the SAME message (else the evaluation number is appended)
 
 std::int64_t g_val[NCYC], g_delta[NCYC], g_tsched[MAXE], g_val2[NCYC], g_delta2[NCYC];
 std::int64_t g_throwT[MAXE], g_throwS[NCYC];   // symbolic 0/1
@@ -89,8 +92,9 @@ struct T {
         if (g_run == 0 && k < MAXE && g_throwT[k] != 0) {
             g_thrownT[k] = true;
             g_threw_with_pending_wakeup |= (pending_before > now);
-            g_s[0][ST_THROWN].add(now, k);
-            throw std::runtime_error(std::string("boomT") + char('0' + k));
+            Int tag = g_same_msg ? 0 : k;
+            g_s[0][ST_THROWN].add(now, tag);
+            throw std::runtime_error(std::string("boomT") + char('0' + tag));
         }
         out.set(a.value() * 3 + 1);
     }
@@ -106,8 +110,9 @@ struct S {
         if (k + 1 < NCYC) s.schedule(TimeDelta{g_delta2[k]});
         if (g_run == 0 && g_throwS[k] != 0) {
             g_thrownS[k] = true;
-            g_s[0][ST_THROWN2].add(now, k);
-            throw std::runtime_error(std::string("boomS") + char('0' + k));
+            Int tag = g_same_msg ? 0 : k;
+            g_s[0][ST_THROWN2].add(now, tag);
+            throw std::runtime_error(std::string("boomS") + char('0' + tag));
         }
         out.set(g_val2[k]);
     }
@@ -165,8 +170,9 @@ struct TK {
         g_s[g_run][ST_KEVAL0 + k].add(now, a.value());
         if (g_run == 0 && j < NCYC && g_throwK[k][j] != 0) {
             g_thrownK[k][j] = true;
-            g_s[0][ST_KTHROWN0 + k].add(now, j);
-            throw std::runtime_error(std::string("boom") + char('a' + k) + char('0' + j));
+            Int tag = g_same_msg ? 0 : j;
+            g_s[0][ST_KTHROWN0 + k].add(now, tag);
+            throw std::runtime_error(std::string("boom") + char('a' + k) + char('0' + tag));
         }
         out.set(a.value() * 3 + 1);
     }
@@ -325,6 +331,7 @@ extern "C" int harness_main() {
     GraphBuilder gb0 = build_graph<Top>();
     GraphBuilder gb1 = build_graph<Top>();
 
+    g_same_msg = verif_bool("same_msg");
     for (int c = 0; c < NCYC; c++) {
         g_val[c] = verif_range("val", -1000, 1000);
         g_delta[c] = verif_range("delta", 1, DMAX);
@@ -412,6 +419,14 @@ extern "C" int harness_main() {
         recovered |= g_thrownT[k] && !g_thrownT[k + 1] && k + 1 < g_s[0][ST_TEVAL].n;
     }
     if (consecutive) verif_reach("throw_in_consecutive_evaluations");
+    if (g_same_msg && (nthrow >= 2 || nthrow2 >= 2 || g_s[0][ST_KTHROWN0].n >= 2 || g_s[0][ST_KTHROWN1].n >= 2))
+        verif_reach("same_error_message_in_two_cycles");
+    {   // same message, NOT in consecutive evaluations (a successful evaluation in between)
+        bool gap = false;
+        for (int a = 0; a < MAXE; a++)
+            for (int b = a + 2; b < MAXE; b++) gap |= g_thrownT[a] && g_thrownT[b] && !g_thrownT[a + 1];
+        if (g_same_msg && gap) verif_reach("same_error_message_again_after_a_good_evaluation");
+    }
     if (recovered) verif_reach("normal_evaluation_after_throw");
     if (g_s[1][ST_TEVAL].n > NCYC) verif_reach("thrower_woken_by_own_schedule");
     if (g_threw_with_pending_wakeup) verif_reach("throw_while_own_wakeup_pending");
